@@ -18,7 +18,7 @@ R7 the initial values of the accumulators taken over ALL valid matchings are neu
 import ast, itertools
 
 from ..terms import *
-from ..absint import Interp, iter_effects, dump
+from ..absint import Interp, iter_effects, Eff, dump
 from ..termeval import TermEval, NOATOM, Abs, Leave, Raises, order_cmp, FLIP
 from ..loader import AnalysisError
 from .. import lp, spec, doc
@@ -46,6 +46,8 @@ def make_opaque(repo, it):
     def opaque(f):
         if f.cls == 'Model':
             return True
+        if f.cls == BF and Interp.is_generator(f):
+            return False                  # the enumeration itself, handed out lazily: its loop is the enumeration loop
         if f.cls == BF and has_loop(f):
             # pure search / comparison helpers stay opaque; a helper that itself folds into self.optimal_* is inlined
             return not any(a.startswith('optimal_') for a in it.stored_attrs(f.node.body))
@@ -175,8 +177,55 @@ def run_tree(repo):
         it.opaque = make_opaque(repo, it)
         f = repo.method(BF, 'run')
         effs, rv = it.run(f, {})
-        _init_cache[key] = effs
+        _init_cache[key] = promote_locals([e for e in effs if not (e.kind == 'call' and Interp.is_generator(e.target))])
+        _gen_cache[key] = [e for e in effs if e.kind == 'call' and Interp.is_generator(e.target)]
     return _init_cache[key]
+
+
+_gen_cache = {}
+
+
+def promote_locals(effs):
+    """run() may fold into locals and copy them to self.optimal_* once the enumeration is over.  The effect tree is rewritten
+    to the equivalent form in which the fold works on the attributes themselves: initial value stored before the loop,
+    every assignment of the local inside the loop a store, every read of the running value a read of the attribute."""
+    from ..absint import map_effects
+    loops = [e for e in effs if e.kind == 'for']
+    if len(loops) != 1:
+        return effs
+    loop = loops[0]
+    k = effs.index(loop)
+    promo = {}
+    for e in effs[k + 1:]:
+        if e.kind == 'store' and e.target[0] == 'attr' and e.target[1] == SELF and e.value[0] == 'accum' and len(e.value) > 4 and e.value[4] == loop.lid \
+                and isinstance(e.value[3], str) and e.value[3] not in promo and all(en[0] == 'assign' for en in e.value[2]):
+            promo[e.value[3]] = (e.target[2], e.value[1], e)
+    if not promo:
+        return effs
+    dropped = {id(v[2]) for v in promo.values()}
+    def rw(t):
+        if t[0] in ('carried', 'prefix') and t[1] in promo and t[2] == loop.lid:
+            return A(SELF, promo[t[1]][0])
+        return None
+    def conv(es):
+        out = []
+        for e in es:
+            if e.kind == 'acc' and e.var in promo and e.op == 'assign':
+                out.append(Eff('store', e.func, None, target=A(SELF, promo[e.var][0]), value=e.value))
+                out[-1].line = e.line
+                continue
+            for fld in ('then', 'orelse', 'body'):
+                if hasattr(e, fld) and isinstance(getattr(e, fld), list):
+                    setattr(e, fld, conv(getattr(e, fld)))
+            out.append(e)
+        return out
+    new_loop = conv(map_effects([loop], rw))[0]
+    inits = []
+    for var, (attr, pre, e) in promo.items():
+        st = Eff('store', e.func, None, target=A(SELF, attr), value=pre)
+        st.line = loop.line
+        inits.append(st)
+    return effs[:k] + inits + [new_loop] + [e for e in effs[k + 1:] if id(e) not in dropped]
 
 
 def initial_values(repo):
@@ -363,8 +412,10 @@ def check_fold(rep, repo, f, table, comps):
     # matching pairs term and validity term
     gmp = repo.classes[BF].get('get_matching_pairs')
     isv = repo.classes[BF].get('is_valid')
-    mp_calls = [e for e, c in iter_effects(loop.body) if e.kind == 'callo' and e.target is gmp]
-    v_calls = [e for e, c in iter_effects(loop.body) if e.kind == 'callo' and e.target is isv]
+    # (an enumeration handed out by a generator method is fused into this loop; its calls were made inside the generator)
+    scope = list(loop.body) + _gen_cache.get(repo.root, [])
+    mp_calls = [e for e, c in iter_effects(scope) if e.kind == 'callo' and e.target is gmp]
+    v_calls = [e for e, c in iter_effects(scope) if e.kind == 'callo' and e.target is isv]
     if not mp_calls or not v_calls:
         rep.inconclusive('C07.R1', f.where, 'the loop calls get_matching_pairs and is_valid', got='%d / %d calls' % (len(mp_calls), len(v_calls)))
         return
@@ -598,7 +649,9 @@ def check_matching_pairs(rep, repo, f):
     if t[0] == 'comp' and len(t[1]) == 1:
         b, g = t[1][0]
         dom = b[3]
-        if dom[0] == 'call' and dom[1] == S('range') and len(dom[2]) == 1 and dom[2][0] == A(lp.MODEL, 'num_students'):
+        # one position per student: num_students, the rows of pairs (one per student line, C10.R2) or the enumerated tuple itself
+        n_students = (A(lp.MODEL, 'num_students'), CALL(S('len'), [A(lp.MODEL, 'pairs')]), CALL(S('len'), [m]))
+        if dom[0] == 'call' and dom[1] == S('range') and len(dom[2]) == 1 and dom[2][0] in n_students:
             mi = I(m, b)
             guard_ok = g in (NOT(CMP('Eq', mi, C(0))), CMP('NotEq', mi, C(0)), CMP('Gt', mi, C(0)), mi, NOT(CMP('Eq', C(0), mi)), CMP('NotEq', C(0), mi))
             el = t[2]
